@@ -12,7 +12,21 @@ EXTENDS LinQ
 
 \* ---------------------------------------------------------------- logged values on one power-of-two denominator
 \* (keeps every sum on the "equal denominators" path of QAdd: no blow-up of the unreduced rationals)
-DOfW(w) == ValW(FmtOfW(w), w)
+\* Fast decoding of a logged float / double (2 / 4 limbs of 16 bits) with native integer arithmetic; DOfW(w) = ValW(FmtOfW(w), w) for every
+\* finite pattern (checked against the IEEE module on a pattern lattice by MC_C04).
+FinWF(w) == IF Len(w) = 4 THEN (w[4] % 32768) \div 16 # 2047 ELSE (w[2] % 32768) \div 128 # 255
+AllFinF(ws) == \A i \in 1..Len(ws) : FinWF(ws[i])
+DOfW(w) ==
+    IF Len(w) = 4
+    THEN LET e == (w[4] % 32768) \div 16
+             hi == (w[4] % 16) + (IF e = 0 THEN 0 ELSE 16)
+             t1 == (w[1] \div 32768) + 2 * w[2]
+             t2 == (t1 \div 32768) + 4 * w[3]
+             t3 == (t2 \div 32768) + 8 * hi
+         IN DMk(w[4] >= 32768, NNorm(<< w[1] % 32768, t1 % 32768, t2 % 32768, t3 >>), (IF e = 0 THEN 1 ELSE e) - 1075)
+    ELSE LET e == (w[2] % 32768) \div 128
+             m == (w[2] % 128) * 65536 + w[1] + (IF e = 0 THEN 0 ELSE 8388608)
+         IN DMk(w[2] >= 32768, NFromNat(m), (IF e = 0 THEN 1 ELSE e) - 150)
 RECURSIVE MinExpFrom(_, _)
 MinExpFrom(ds, i) == IF i > Len(ds) THEN 0 ELSE LET r == MinExpFrom(ds, i + 1) IN IF ds[i].e < r THEN ds[i].e ELSE r
 QSeqC(ws) == LET ds == [i \in 1..Len(ws) |-> DOfW(ws[i])]
@@ -31,10 +45,27 @@ QId == << QOne, QZero, QZero, QZero >>
 Sq(a) == QMul(a, a)
 Sum1(v) == QSum([i \in 1..Len(v) |-> QAbs(v[i])])                \* 1-norm
 
+\* ---------------------------------------------------------------- comparison predicates
+\* | a - b | <= tol without forming the difference as an unreduced rational: with a = pa/qa, b = pb/qb, tol = pt/qt
+\*   | pa qb - pb qa | qt <= pt qa qb ;  factors that are powers of two (always qa and qt here) are shifts
+NIsPow2(n) == Len(n) > 0 /\ n = NShl(<<1>>, NBitLen(n) - 1)
+NMulP(a, n) == IF NIsPow2(n) THEN NShl(a, NBitLen(n) - 1) ELSE NMul(a, n)
+WithinQ(a, b, tol) ==
+    LET d == ZSub(ZMk(a.p.neg, NMulP(a.p.m, b.q)), ZMk(b.p.neg, NMulP(b.p.m, a.q)))
+    IN QSign(tol) >= 0 /\ NCmp(NMulP(d.m, tol.q), NMulP(NMulP(tol.p.m, a.q), b.q)) <= 0
+MaxDiffLe(obs, exp, tol) == Len(obs) = Len(exp) /\ \A i \in 1..Len(exp) : WithinQ(obs[i], exp[i], tol)
+PMDiffLe(obs, exp, tol) == MaxDiffLe(obs, exp, tol) \/ MaxDiffLe(obs, VNeg(exp), tol)
+\* every (obs_i - exp_i)^2 * scale <= bound
+SqDiffLe(obs, exp, scale, bound) == Len(obs) = Len(exp) /\ \A i \in 1..Len(exp) : QLe(QMul(Sq(QSub(obs[i], exp[i])), scale), bound)
+AllEq(obs, exp) == Len(obs) = Len(exp) /\ \A i \in 1..Len(exp) : QEq(obs[i], exp[i])
 \* ---------------------------------------------------------------- single-axis rotations and Euler products
-RotX(c, s) == Mat(3, 3, << QOne, QZero, QZero,   QZero, c, s,   QZero, QNeg(s), c >>)
-RotY(c, s) == Mat(3, 3, << c, QZero, QNeg(s),   QZero, QOne, QZero,   s, QZero, c >>)
-RotZ(c, s) == Mat(3, 3, << c, s, QZero,   QNeg(s), c, QZero,   QZero, QZero, QOne >>)
+\* (0 and 1 are written over the denominator of c: every entry of a product of such matrices then has the same denominator
+\*  and the unreduced rationals of Exact stay small -- OneLike(c) = 1, ZeroLike(c) = 0 as values)
+OneLike(c) == QMk(ZMk(FALSE, c.q), c.q)
+ZeroLike(c) == QMk(ZMk(FALSE, << >>), c.q)
+RotX(c, s) == LET o == OneLike(c) z == ZeroLike(c) IN Mat(3, 3, << o, z, z,   z, c, s,   z, QNeg(s), c >>)
+RotY(c, s) == LET o == OneLike(c) z == ZeroLike(c) IN Mat(3, 3, << c, z, QNeg(s),   z, o, z,   s, z, c >>)
+RotZ(c, s) == LET o == OneLike(c) z == ZeroLike(c) IN Mat(3, 3, << c, s, z,   QNeg(s), c, z,   z, z, o >>)
 AxisRot(ax, p) == CASE ax = "X" -> RotX(p[1], p[2]) [] ax = "Y" -> RotY(p[1], p[2]) [] ax = "Z" -> RotZ(p[1], p[2])
 \* d/d(angle) of the single-axis rotation, times the angular velocity w  (derivedEulerAngleX/Y/Z)
 DRotX(c, s, w) == Mat(3, 3, << QZero, QZero, QZero,   QZero, QMul(QNeg(s), w), QMul(c, w),   QZero, QMul(QNeg(c), w), QMul(QNeg(s), w) >>)
@@ -67,7 +98,10 @@ IsRotation(m) == MEq(MMul(m, MTranspose(m)), MIdentity(3)) /\ QEq(MDet(m), QOne)
 \* axis-angle: half angle <<ch, sh>>, axis a (unit): <<ch, sh a>>
 AngleAxisQ(h, a) == << h[1], QMul(h[2], a[1]), QMul(h[2], a[2]), QMul(h[2], a[3]) >>
 \* qua(vec3(pitch, yaw, roll)): rotation about x by pitch, then y by yaw, then z by roll:  qz * qy * qx  (half angles hx, hy, hz)
-EulerQuat(hx, hy, hz) == QuatMul(<< hz[1], QZero, QZero, hz[2] >>, QuatMul(<< hy[1], QZero, hy[2], QZero >>, << hx[1], hx[2], QZero, QZero >>))
+EulerQuat(hx, hy, hz) == LET zx == ZeroLike(hx[1]) zy == ZeroLike(hy[1]) zz == ZeroLike(hz[1])
+                         IN QuatMul(<< hz[1], zz, zz, hz[2] >>, QuatMul(<< hy[1], zy, hy[2], zy >>, << hx[1], hx[2], zx, zx >>))
+\* q v q* (LinQ's QuatRotate with the 0 of the pure quaternion written over v's denominator)
+QuatRotateC(q, v) == LET r == QuatMul(QuatMul(q, << ZeroLike(v[1]), v[1], v[2], v[3] >>), QuatConj(q)) IN << r[2], r[3], r[4] >>
 \* full angle from the half angle
 Dbl(h) == << QSub(Sq(h[1]), Sq(h[2])), QMul(QI(2), QMul(h[1], h[2])) >>
 \* rotation matrix of an arbitrary non-zero quaternion (homogeneous form; equals QuatToMat3 for unit q)
@@ -110,11 +144,11 @@ QuatCastRel(m, r) ==
 \* rotation between two unit vectors uh, vh (shortest arc): r unit, w >= 0, r rotates uh onto vh about an axis orthogonal to both
 RotBetweenRel(uh, vh, r) ==
     /\ QEq(QuatNorm2(r), QOne) /\ QSign(r[1]) >= 0
-    /\ \A i \in 1..3 : QEq(QuatRotate(r, uh)[i], vh[i])
+    /\ AllEq(QuatRotateC(r, uh), vh)
     /\ QIsZero(VDot(QVec(r), uh)) /\ QIsZero(VDot(QVec(r), vh))
 
 \* ---------------------------------------------------------------- dual quaternions <<real, dual>>: rotation real, then translation t
-DQMake(q, t) == << q, VScale(QuatMul(<< QZero, t[1], t[2], t[3] >>, q), QF(1, 2)) >>
+DQMake(q, t) == << q, VScale(QuatMul(<< ZeroLike(t[1]), t[1], t[2], t[3] >>, q), QF(1, 2)) >>
 DQTrans(re, du) == VScale(QVec(QuatMul(du, QuatConj(re))), QDiv(QI(2), QuatNorm2(re)))
 DQApply(re, du, v) == VAdd(MVec(QuatToMat3H(re), v), DQTrans(re, du))
 \* mat3x4_cast: three columns of four rows; column k holds row k of [R | t]
@@ -123,10 +157,4 @@ DQMat3x4(re, du) == LET R == QuatToMat3H(re) t == DQTrans(re, du)
                                     MAt(R, 1, 2), MAt(R, 2, 2), MAt(R, 3, 2), t[2],
                                     MAt(R, 1, 3), MAt(R, 2, 3), MAt(R, 3, 3), t[3] >>)
 
-\* ---------------------------------------------------------------- comparison predicates
-MaxDiffLe(obs, exp, tol) == Len(obs) = Len(exp) /\ \A i \in 1..Len(exp) : QLe(QAbs(QSub(obs[i], exp[i])), tol)
-PMDiffLe(obs, exp, tol) == MaxDiffLe(obs, exp, tol) \/ MaxDiffLe(obs, VNeg(exp), tol)
-\* every (obs_i - exp_i)^2 * scale <= bound
-SqDiffLe(obs, exp, scale, bound) == Len(obs) = Len(exp) /\ \A i \in 1..Len(exp) : QLe(QMul(Sq(QSub(obs[i], exp[i])), scale), bound)
-AllEq(obs, exp) == Len(obs) = Len(exp) /\ \A i \in 1..Len(exp) : QEq(obs[i], exp[i])
 =============================================================================
